@@ -32,7 +32,20 @@ class VLoop(asyncio.SelectorEventLoop):
     def time(self):
         return self.ticks / TICKS_PER_S
 
+    dead = False
+
+    def call_soon(self, callback, *args, context=None):
+        if self.dead:  # finalisation of leftover coroutines: swallow
+            h = asyncio.Handle(callback, args, self, context)
+            h.cancel()
+            return h
+        return super().call_soon(callback, *args, context=context)
+
     def call_at(self, when, callback, *args, context=None):
+        if self.dead:
+            h = asyncio.TimerHandle(when, callback, args, self, context)
+            h.cancel()
+            return h
         h = super().call_at(round(when * TICKS_PER_S) / TICKS_PER_S, callback, *args, context=context)
         self.vseq[id(h)] = self._vseq
         self._vseq += 1
@@ -148,10 +161,22 @@ class VLoop(asyncio.SelectorEventLoop):
         self.ticks = max(self.ticks, t)
 
     def shutdown(self):
+        # Finalise leftover coroutines NOW, inside this (dead) loop: otherwise their `finally` blocks would run at
+        # garbage-collection time inside whatever loop is running then (a later scenario) and pollute it.
+        self.dead = True
         for h in list(self._scheduled):
             h.cancel()
         self._ready.clear()
         self._scheduled.clear()
+        self._enter()
+        try:
+            for t in list(asyncio.all_tasks(self)):
+                try:
+                    t.get_coro().close()
+                except BaseException:  # noqa: BLE001
+                    pass
+        finally:
+            self._leave()
         try:
             self.close()
         except Exception:  # noqa: BLE001
